@@ -303,6 +303,10 @@ SubdocWriteOut(a, d, n, insert) ==
     IF p \notin Leaves \/ (a.val = "{}" /\ p # "n") THEN Wild(d)
     ELSE IF ~HasBody(d) THEN
         IF insert THEN Unch(d, {"missing"})
+        \* a writer that read the document before a concurrent deletion may report that it is gone instead of creating it
+        \* (nothing is lost by that; only traces of the concurrent family mark their calls "raced")
+        ELSE IF a.opt = "raced" /\ IsTomb(d) /\ a.cas = 0 /\ ParentErr(DashLeaves, p) = "" /\ a.val # "" THEN
+             Unch(d, {"missing"}) \cup {Mut(Live(ObjBody(SetLeaf(DashLeaves, p, a.val)), TRUE, n, "0", NoXa, NextRev(d)))}
         ELSE IF a.cas # 0 /\ a.cas # d.cas THEN Unch(d, RefCas)
         ELSE IF ParentErr(DashLeaves, p) # "" THEN Unch(d, {ParentErr(DashLeaves, p)})
         ELSE IF a.val = "" THEN Wild(d)
